@@ -2,7 +2,8 @@ package main
 
 // Source census (go/parser + go/ast on $VERIF_REPO, every run): every function reachable by name
 // from the ProcessPacket / Process* / decoder entry points of the four handler packages and of
-// package packet that contains a for/range loop (package packet) or a loop / index / slice
+// package packet that contains a DATA-DEPENDENT loop (package packet: `for range` and counted loops
+// terminate by construction and are not listed) or a loop / index / slice
 // expression (handler packages).  Package packet: one `census <func> <loops>` case per function;
 // the model (Extract/D08.v census_table) answers whether the function is listed with that loop
 // count and what covers it, and `censusall` checks that no listed function vanished.  Handler
@@ -21,6 +22,161 @@ import (
 
 	"pvharness/lib"
 )
+
+// countedLoop recognises `for [i := a]; i OP bound; [i++ / i-- / i += c]` (the step may also be one
+// top-level statement of the body) whose bound is a literal, a
+// plain identifier or len()/cap() of an identifier / selector, where neither the index nor the bound
+// operand is assigned (or address-taken) in the body: such a loop terminates by construction, like
+// every `for range` (not counted either).  Everything else — `for cond {}`, `for {}`, an index
+// advanced by a decoded length — is data-dependent and is what the census lists.
+func countedLoop(f *ast.ForStmt) bool {
+	cond, ok := f.Cond.(*ast.BinaryExpr)
+	if !ok {
+		return false
+	}
+	switch cond.Op {
+	case token.LSS, token.LEQ, token.GTR, token.GEQ, token.NEQ:
+	default:
+		return false
+	}
+	var watched []string // names of the bound operand: must not be assigned in the body
+	var base func(e ast.Expr) bool
+	base = func(e ast.Expr) bool {
+		switch x := e.(type) {
+		case *ast.BasicLit:
+			return true
+		case *ast.Ident:
+			watched = append(watched, x.Name)
+			return true
+		case *ast.SelectorExpr:
+			return base(x.X)
+		case *ast.ParenExpr:
+			return base(x.X)
+		case *ast.CallExpr:
+			if id, ok := x.Fun.(*ast.Ident); ok && len(x.Args) == 1 { // len(v), cap(v), int(v), uint16(v) ...
+				_ = id
+				return base(x.Args[0])
+			}
+			if sel, ok := x.Fun.(*ast.SelectorExpr); ok && len(x.Args) == 0 { // p.NumAddrs(): a getter of a value not assigned
+				return base(sel.X)
+			}
+			return false
+		case *ast.BinaryExpr: // len(x)-1, n/2 ...
+			return base(x.X) && base(x.Y)
+		}
+		return false
+	}
+	// the index is the identifier side of the condition whose other side is an admissible bound
+	idxOf := func(e ast.Expr) (string, bool) { // i, i+c, i-c
+		if id, ok := e.(*ast.Ident); ok {
+			return id.Name, true
+		}
+		if b, ok := e.(*ast.BinaryExpr); ok && (b.Op == token.ADD || b.Op == token.SUB) {
+			if id, ok := b.X.(*ast.Ident); ok {
+				if _, lit := b.Y.(*ast.BasicLit); lit {
+					return id.Name, true
+				}
+			}
+		}
+		return "", false
+	}
+	var iv string
+	if nm, ok := idxOf(cond.X); ok && base(cond.Y) {
+		iv = nm
+	} else {
+		watched = nil
+		if nm, ok := idxOf(cond.Y); ok && base(cond.X) {
+			iv = nm
+		} else {
+			return false
+		}
+	}
+	for _, w := range watched {
+		if w == iv {
+			return false
+		}
+	}
+	// exactly one step of the index: i++ / i-- / i += c, either the post statement or a statement
+	// at the top level of the body (not under a condition); nothing else assigns the index or the bound
+	isStep := func(st ast.Stmt) bool {
+		switch p := st.(type) {
+		case *ast.IncDecStmt:
+			id, ok := p.X.(*ast.Ident)
+			return ok && id.Name == iv
+		case *ast.AssignStmt:
+			if len(p.Lhs) == 1 && len(p.Rhs) == 1 && (p.Tok == token.ADD_ASSIGN || p.Tok == token.SUB_ASSIGN) {
+				if id, ok := p.Lhs[0].(*ast.Ident); ok && id.Name == iv {
+					_, lit := p.Rhs[0].(*ast.BasicLit)
+					return lit
+				}
+			}
+		}
+		return false
+	}
+	steps := 0
+	if f.Post != nil {
+		if !isStep(f.Post) {
+			return false
+		}
+		steps++
+	}
+	var stepStmt ast.Stmt
+	for _, st := range f.Body.List {
+		if isStep(st) {
+			steps++
+			stepStmt = st
+		}
+	}
+	if steps != 1 {
+		return false
+	}
+	okBody := true
+	ast.Inspect(f.Body, func(n ast.Node) bool {
+		if n == ast.Node(stepStmt) && stepStmt != nil {
+			return false
+		}
+		touch := func(e ast.Expr) {
+			for {
+				switch x := e.(type) {
+				case *ast.Ident:
+					if x.Name == iv {
+						okBody = false
+					}
+					for _, w := range watched {
+						if x.Name == w {
+							okBody = false
+						}
+					}
+					return
+				case *ast.SelectorExpr:
+					e = x.X
+				case *ast.IndexExpr:
+					return // an element write does not change len
+				case *ast.ParenExpr:
+					e = x.X
+				case *ast.StarExpr:
+					e = x.X
+				default:
+					return
+				}
+			}
+		}
+		switch v := n.(type) {
+		case *ast.AssignStmt:
+			for _, l := range v.Lhs {
+				touch(l)
+			}
+		case *ast.IncDecStmt:
+			touch(v.X)
+		case *ast.UnaryExpr:
+			if v.Op == token.AND {
+				touch(v.X)
+			}
+		}
+		return okBody
+	})
+	return okBody
+}
 
 type censusFn struct {
 	pkg, name      string
@@ -74,8 +230,10 @@ func genCensus(cl *caseList, r *lib.Run) {
 				x := &censusFn{pkg: pkg, name: name, calls: map[string]bool{}, sel: map[string]bool{}}
 				ast.Inspect(fd.Body, func(n ast.Node) bool {
 					switch v := n.(type) {
-					case *ast.ForStmt, *ast.RangeStmt:
-						x.loops++
+					case *ast.ForStmt:
+						if !countedLoop(v) { // only loops with a data-dependent step or condition need a theorem
+							x.loops++
+						}
 					case *ast.IndexExpr, *ast.SliceExpr:
 						x.indexes++
 					case *ast.CallExpr:
